@@ -118,7 +118,7 @@ CLAIMED["C10"] = (
     "USB-HID framing, McuBoot operations (data phases, status mirroring), SDP/SDPS and 'within bounded time' are NOT decided here. Added: McuBoot.read_memory (USB-HID chunked path for packet sizes 32/56/1016 and the single-command path, any address, lengths 0..64 KiB, loop by inductive invariant): success status implies exactly the requested device bytes, whatever is returned is a prefix of the device bytes - against an ASSUMED device model (ghost memory; _process_cmd / _read_data behave as the reference bootloader).",
     "Trusted: CRC as an uninterpreted function (C09), assumed contracts for the wall-clock wait loop and for response decoding, frame layout "
     "verified for payload lengths 0/1/4/32 and assumed for the others at call sites, A-enc, A-smt, A-struct. Known design-time findings #28/#29 "
-    "(partial data with SUCCESS status; struct.error from response constructors) are not covered by a check. Assumed contracts (device model): McuBoot._process_cmd, McuBoot._read_data - a data phase that ends with SUCCESS but delivered fewer bytes than announced is outside this model (not decided).",
+    "(partial data with SUCCESS status; struct.error from response constructors) are not covered by a check. Assumed contracts (device model): McuBoot._process_cmd, McuBoot._read_data - a data phase that ends with SUCCESS but delivered fewer bytes than announced is outside this model: the bounded fault-injection sweep (bounded/C10.py) shows it is mishandled - known finding C10-KF1.",
     "DESIGN.md 7 C10")
 CLAIMED["C13"] = (
     "Deductively: the OTFAD counter nonce KeyBlob._get_ctr_nonce = CTR_W0 || CTR_W1 || (W0 xor W1) || 0^4 (address word left to the counter), and "
